@@ -97,3 +97,180 @@ def check_index_dtype(ctx, fi, rule='R-CAP/index-dtype'):
                    'that list is longer than the bound the stored '
                    'indices wrap around')
     return n
+
+
+def _typed_arrays(fi):
+    """local array name -> dtype expression, for np.zeros/ones/empty with
+    an explicit dtype"""
+    out = dict()
+    for st in ast.walk(fi.node):
+        if isinstance(st, ast.Assign) and len(st.targets) == 1 \
+                and isinstance(st.targets[0], ast.Name) \
+                and isinstance(st.value, ast.Call) \
+                and isinstance(st.value.func, ast.Attribute) \
+                and st.value.func.attr in ('zeros', 'ones', 'empty',
+                                           'full'):
+            for kw in st.value.keywords:
+                if kw.arg == 'dtype':
+                    out[st.targets[0].id] = kw.value
+    return out
+
+
+def check_sum_capacity(ctx, fi, rule='R-CAP/sum-capacity'):
+    """An array that receives *sums* of other integers (``A[..] =
+    X[..].sum(..)`` or ``A[..] += X[..]``) and whose integer type is chosen
+    from a bound: the bound has to be a bound on the sums.  A bound read
+    from the summands without summing them (their largest element) is a
+    bound on one term only; the total of several terms wraps around.
+    Fixed types and bounds that do not derive from the summands are not
+    judged."""
+    arrs = _typed_arrays(fi)
+    n = 0
+    for st in ast.walk(fi.node):
+        if isinstance(st, ast.Assign) and len(st.targets) == 1:
+            tg, aug = st.targets[0], False
+        elif isinstance(st, ast.AugAssign) and isinstance(st.op, ast.Add):
+            tg, aug = st.target, True
+        else:
+            continue
+        if not (isinstance(tg, ast.Subscript) and isinstance(
+                tg.value, ast.Name) and tg.value.id in arrs):
+            continue
+        dt = arrs[tg.value.id]
+        sd = backward_slice(fi, dt)
+        if 'choose_int_dtype' not in sd.call_names():
+            continue
+        sv = backward_slice(fi, st.value)
+        sums = 'sum' in sv.call_names() or (
+            aug and not isinstance(st.value, ast.Constant))
+        if not sums:
+            continue
+        n += 1
+        ctx.touch(fi)
+        shared = sorted(sv.params & sd.params)
+        ok = (not shared) or bool(
+            {'sum', 'cumsum', 'add'} & sd.call_names())
+        ctx.ob(rule, f'{fi.qual}:{tg.value.id}#{n - 1}', fi.loc(st), ok,
+               f'`{tg.value.id}` holds sums and its type is sized from a '
+               'sum (or from a bound given independently of the summands)'
+               if ok else
+               f'`{unparse(st)[:70]}` stores sums over {shared} in an '
+               f'array whose integer type is sized from '
+               f'`{unparse(dt)[:40]}`, which reads {shared} without '
+               'summing: a total of several terms exceeds a bound on one '
+               'term and wraps around')
+    return n
+
+
+_MEMBER_CLASS = {'data': 'value', 'indices': 'index', 'indptr': 'index'}
+
+
+def _member_of(name):
+    """the sparse-matrix member an identifier or HDF5 key names, if any:
+    the repository spells the three arrays of a CSR / CSC matrix `data`,
+    `indices` and `indptr` in every parameter list and every file"""
+    if not isinstance(name, str):
+        return None
+    toks = name.replace('/', '_').lower().split('_')
+    for m in ('indptr', 'indices', 'data'):
+        if m in toks:
+            return m
+    return None
+
+
+def _members_in(sl):
+    out = set()
+    for p in sl.params:
+        m = _member_of(p)
+        if m:
+            out.add(m)
+    for c in sl.consts:
+        m = _member_of(c)
+        if m:
+            out.add(m)
+    return out
+
+
+def check_borrowed_dtype(ctx, fi, rule='R-DTYPE/borrowed-type'):
+    """An array allocated with the element type of another array
+    (``np.zeros(n, dtype=E.dtype)``) holds what E holds.  Of the three
+    arrays of a sparse matrix, `data` holds expression values (any float
+    or narrow integer type) while `indices` and `indptr` hold positions.
+    An array typed from the values and then used as an index member (bound
+    to an `indices=` / `indptr=` parameter, stored under such a key, or
+    filled from such an array) keeps positions in the value type: they are
+    rounded or wrap around.  The members are read off parameter names and
+    HDF5 keys (the interface), never off local names."""
+    db = ctx.db
+    n = 0
+    for st in ast.walk(fi.node):
+        if not (isinstance(st, ast.Assign) and len(st.targets) == 1
+                and isinstance(st.targets[0], ast.Name)
+                and isinstance(st.value, ast.Call)
+                and isinstance(st.value.func, ast.Attribute)
+                and st.value.func.attr in ('zeros', 'ones', 'empty',
+                                           'full', 'zeros_like',
+                                           'empty_like')):
+            continue
+        dt = [kw.value for kw in st.value.keywords if kw.arg == 'dtype']
+        if not dt and st.value.func.attr in ('zeros', 'empty', 'ones') \
+                and len(st.value.args) == 2:
+            dt = [st.value.args[1]]
+        if not dt:
+            continue
+        sd = backward_slice(fi, dt[0], positional=True)
+        if 'dtype' not in sd.attr_names():
+            continue
+        typed = {_MEMBER_CLASS[m] for m in _members_in(sd)}
+        if len(typed) != 1:
+            continue
+        name = st.targets[0].id
+        used = dict()
+
+        def note(member, where):
+            if member:
+                used.setdefault(_MEMBER_CLASS[member], (member, where))
+        for c in ast.walk(fi.node):
+            if isinstance(c, ast.Call):
+                for kw in c.keywords:
+                    if isinstance(kw.value, ast.Name) \
+                            and kw.value.id == name and kw.arg:
+                        if kw.arg == 'data' and isinstance(
+                                c.func, ast.Attribute) \
+                                and c.func.attr == 'create_dataset' \
+                                and c.args and isinstance(
+                                    c.args[0], ast.Constant):
+                            note(_member_of(c.args[0].value), c)
+                        elif kw.arg != 'data' or not isinstance(
+                                c.func, ast.Attribute):
+                            note(_member_of(kw.arg), c)
+            tg = None
+            if isinstance(c, ast.Assign) and len(c.targets) == 1:
+                tg = c.targets[0]
+            elif isinstance(c, ast.AugAssign):
+                tg = c.target
+            if tg is not None and isinstance(tg, ast.Subscript) \
+                    and isinstance(tg.value, ast.Name) \
+                    and tg.value.id == name:
+                sv = backward_slice(fi, c.value, positional=True)
+                ms = _members_in(sv)
+                if len(ms) == 1:
+                    note(next(iter(ms)), c)
+        if not used:
+            continue
+        n += 1
+        ctx.touch(fi)
+        tcls = next(iter(typed))
+        bad = [v for k, v in used.items() if k != tcls]
+        ok = not bad
+        ctx.ob(rule, f'{fi.qual}:alloc#{n - 1}', fi.loc(st), ok,
+               f'`{unparse(st)[:50]}` is typed from and used as the same '
+               'kind of sparse-matrix member' if ok else
+               f'`{unparse(st)[:70]}` takes its element type from the '
+               f'matrix\'s {"values" if tcls == "value" else "positions"} '
+               f'but is used as `{bad[0][0]}` '
+               f'(`{unparse(bad[0][1])[:50]}`): '
+               + ('positions kept in the value type are rounded or wrap '
+                  'around' if tcls == 'value' else
+                  'values kept in the position type are truncated'))
+    return n
